@@ -79,8 +79,18 @@ def kinds_of_ctx(ctx, al=None):
     for c in ctx:
         if c['k'] == 'arm':
             p = c['pat']
+            e = c.get('scrut') or {}
+            while e.get('k') in ('Ref', 'Paren'):
+                e = e['expr']
             if p['k'] == 'Wild':
                 out.append('_')
+            elif e.get('k') == 'MethodCall' and e['method'] in ('parse_args', 'parse') and e.get('turbofish') and pat_head(p) in ('Ok', 'Err') and c.get('narms') == 2:
+                # `match x.parse_args::<T>() { Ok(v) => .., Err(_) => .. }` is `if let Ok(v) = x.parse_args::<T>() { .. } else { .. }`
+                t = e['turbofish'][0]
+                out.append(('' if pat_head(p) == 'Ok' else '!') + 'parse<%s>' % (ty_s(t['ty']).replace(' ', '') if t['k'] == 'Type' else '?'))
+            elif p['k'] in ('TupleStruct', 'Struct') and _nested_heads(p):
+                # `Expr::Lit(ExprLit { lit: Lit::Str(s), .. })` stands for the nested matches it abbreviates
+                out += _all_heads(p)
             else:
                 out.append(pat_head(p))
         elif c['k'] == 'iflet' and c['pat']['k'] in ('Tuple',) or (c['k'] == 'iflet' and c['pat']['k'] in ('TupleStruct', 'Struct') and _nested_heads(c['pat'])):
